@@ -754,6 +754,7 @@ func runC20(c *Ctx) {
 			c.Undecided(fname(lp)+"#every-announced-head-resets", lp.Pos(), "no requestReset call found in the pool's event loop")
 		}
 	}
+	c20RoundE(c, c.W)
 }
 
 // c20Dropped: in promoteExecutables / demoteUnexecutables / truncate*, every
@@ -832,5 +833,122 @@ func c20Variants() []Variant {
 		{Name: "stats-without-lock", File: f, Old: "func (pool *TxPool) TransactionsNumber() (int, int) {\n	pool.mu.RLock()\n	defer pool.mu.RUnlock()\n", New: "func (pool *TxPool) TransactionsNumber() (int, int) {\n", Rule: "C20.L1", Construct: "TransactionsNumber"},
 		{Name: "add-without-price-index", File: f, Old: "		pool.all.Add(tx)\n		pool.priced.Put(tx)\n		pool.journalTx(from, tx)", New: "		pool.all.Add(tx)\n		pool.journalTx(from, tx)", Rule: "C20.L2", Construct: "all.Add"},
 		{Name: "enqueue-before-validate", File: f, Old: "	// If the transaction fails basic validation, discard it\n	if err := pool.validateTx(tx, local); err != nil {", New: "	pool.enqueueTx(hash, tx)\n	// If the transaction fails basic validation, discard it\n	if err := pool.validateTx(tx, local); err != nil {", Rule: "C20.L3", Construct: "enqueueTx"},
+	}
+}
+
+// c20RoundE: L11 (the caps of a list cover every stored transaction) and L12 (the front-gap test of demotion).
+func c20RoundE(c *Ctx, w *World) {
+	c.Rule("C20.L11", "ALWAYS-WITH", "pending transactions are affordable: txList.Filter returns early when the balance and gas limit are not below the list's costcap / gascap, so those caps must be upper bounds of every stored transaction — in txList.Add every path from the insertion (txs.Put) to a return passes the comparison of the new transaction's cost with costcap and of its gas with gascap. A replacement that returns before the bump leaves a more expensive transaction under a stale cap: after a balance drop into the window it stays pending and is handed to the block builder")
+	c.Min(1)
+	{
+		add := w.Fn("core", "txList", "Add")
+		c.sawFunc(fname(add))
+		var capTests [2][]ssa.Instruction
+		for _, in := range allInstrs(add) {
+			u, ok := in.(*ssa.UnOp)
+			if !ok || u.Op != token.MUL {
+				continue
+			}
+			fa, ok := u.X.(*ssa.FieldAddr)
+			if !ok {
+				continue
+			}
+			f := fieldOfAddr(fa)
+			if f == nil {
+				continue
+			}
+			// the load must feed a comparison
+			cmp := false
+			for _, r := range *u.Referrers() {
+				switch x := r.(type) {
+				case *ssa.BinOp:
+					if x.Op == token.LSS || x.Op == token.GTR || x.Op == token.LEQ || x.Op == token.GEQ {
+						cmp = true
+					}
+				case *ssa.Call:
+					if o := calleeObj(x); o != nil && o.Name() == "Cmp" {
+						cmp = true
+					}
+				}
+			}
+			if !cmp {
+				continue
+			}
+			switch f.Name() {
+			case "costcap":
+				capTests[0] = append(capTests[0], u)
+			case "gascap":
+				capTests[1] = append(capTests[1], u)
+			}
+		}
+		n := 0
+		for _, ci := range callInstrs(add) {
+			o := calleeObj(ci)
+			if o == nil || o.Name() != "Put" || recvName(o) != "txSortedMap" {
+				continue
+			}
+			c.sites++
+			ok := len(capTests[0]) > 0 && len(capTests[1]) > 0 && mustPassAfter(ci.(ssa.Instruction), capTests[0]) && mustPassAfter(ci.(ssa.Instruction), capTests[1])
+			c.Check(fmt.Sprintf("%s#insertion-%d-then-cap-bump", fname(add), n), ci.Pos(), ok, ifelse(ok, "every path from the insertion to a return compares the transaction with costcap and gascap", "a transaction is stored and Add returns without comparing its cost / gas with the list's caps: Filter's early return then trusts a cap below a stored transaction's cost"))
+			n++
+		}
+		if n == 0 {
+			c.Undecided(fname(add)+"#insertion", add.Pos(), "no txs.Put call found in txList.Add")
+		}
+	}
+
+	c.Rule("C20.L12", "EXIT", "pending is a gap-free run starting at the account's nonce: in demoteUnexecutables every iteration, after the balance / gas filter, looks whether the transaction with the account's current nonce is still there (list.Len() > 0 && list.txs.Get(nonce) == nil → postpone the whole list) — on every path from the Filter call onwards, also when the filter produced invalids. A head reset that lowers the nonce and makes a middle transaction unaffordable otherwise leaves a pending prefix that starts above the account nonce")
+	c.Min(1)
+	{
+		dm := w.Fn("core", "TxPool", "demoteUnexecutables")
+		c.sawFunc(fname(dm))
+		var filter ssa.Instruction
+		var nonceCalls []ssa.Value
+		for _, ci := range callInstrs(dm) {
+			o := calleeObj(ci)
+			if o == nil {
+				continue
+			}
+			if o.Name() == "Filter" && recvName(o) == "txList" {
+				filter = ci.(ssa.Instruction)
+			}
+			if o.Name() == "GetNonce" && ci.Value() != nil {
+				nonceCalls = append(nonceCalls, ci.Value())
+			}
+		}
+		var gets, gates []ssa.Instruction
+		for _, ci := range callInstrs(dm) {
+			o := calleeObj(ci)
+			if o == nil || o.Name() != "Get" || recvName(o) != "txSortedMap" {
+				continue
+			}
+			arg := callArgs(ci)[0]
+			for _, nv := range nonceCalls {
+				if derivesFrom(arg, func(x ssa.Value) bool { return x == nv }) {
+					gets = append(gets, ci.(ssa.Instruction))
+				}
+			}
+		}
+		gates = append(gates, gets...)
+		if filter != nil {
+			for _, ci := range callInstrs(dm) {
+				o := calleeObj(ci)
+				if o == nil || !(o.Name() == "Len" || o.Name() == "Empty") || recvName(o) != "txList" {
+					continue
+				}
+				for _, g := range gets {
+					if instrDominates(ci.(ssa.Instruction), g) && instrDominates(filter, ci.(ssa.Instruction)) {
+						gates = append(gates, ci.(ssa.Instruction))
+					}
+				}
+			}
+		}
+		c.sites++
+		if filter == nil || len(gets) == 0 {
+			c.Fail(fname(dm)+"#front-gap-test-on-every-path", dm.Pos(), "the balance filter or the look-up of the transaction with the account's nonce is no longer found in demoteUnexecutables")
+		} else {
+			ok := mustPassAfter(filter, gates)
+			c.Check(fname(dm)+"#front-gap-test-on-every-path", filter.Pos(), ok, ifelse(ok, "every path from the filter passes the front-gap test", "an iteration can end after the filter without having looked for the transaction with the account's current nonce: a pending list that starts above the account nonce is kept and handed to the block builder"))
+		}
 	}
 }
